@@ -17,6 +17,12 @@ def enc2(r, a, b):
     return 2 * enc(r, a, b)
 
 
+def enc_wide(r, a, b):
+    """identity encoding for large objects (uids up to 999)"""
+    lo, hi = (a, b) if a <= b else (b, a)
+    return 1000000.0 * r + 1000.0 * lo + hi + 0.5
+
+
 def _negating(fn):
     """some entries negative (cross-validated distance estimates are): every third (r + a + b) keeps its sign"""
     def f(r, a, b):
@@ -29,6 +35,8 @@ _VFN = {}
 
 
 def value_fn_of(spec):
+    if spec.get('wide'):
+        return enc_wide
     key = (spec.get('dtype') == 'int64', bool(spec.get('neg')))
     if key not in _VFN:
         base = enc2 if key[0] else enc
